@@ -21,7 +21,7 @@ from hashlib import md5
 from zope.interface import Interface, implementer
 
 from twisted.cred import error
-from twisted.cred._digest import calcHA1, calcHA2, calcResponse
+from twisted.cred._digest import algorithms, calcHA1, calcHA2, calcResponse
 from twisted.python.compat import nativeString, networkString
 from twisted.python.deprecate import deprecatedModuleAttribute
 from twisted.python.randbytes import secureRandom
@@ -392,6 +392,16 @@ class DigestCredentialFactory:
 
         if "nonce" not in auth:
             raise error.LoginFailed("Invalid response, no nonce given.")
+
+        algorithm = auth.get("algorithm", b"md5").lower()
+        if algorithm not in algorithms:
+            raise error.LoginFailed("Invalid response, unsupported algorithm.")
+        if "uri" not in auth:
+            raise error.LoginFailed("Invalid response, no uri given.")
+        if algorithm == b"md5-sess" and "cnonce" not in auth:
+            raise error.LoginFailed("Invalid response, no cnonce given.")
+        if auth.get("qop", b"auth") == b"auth-int":
+            raise error.LoginFailed("Invalid response, unsupported qop.")
 
         # Now verify the nonce/opaque values for this client
         if self._verifyOpaque(auth.get("opaque"), auth.get("nonce"), host):
